@@ -58,7 +58,7 @@ MANIFEST_TEXT = ('Exhaustive enumeration of interval sets on one contig against 
                  'fragment length 1..S+1 (<= 2 intervals); clip; all ordered pairs of internally disjoint sets for '
                  'count_overlap/intersect (S<=5, S=6 in canonical order); all pairs of multisets for unique_intersect/'
                  'jaccard/forbes for S<=3, S=4 (of the 3x3 pairs a seed-rotated quarter), S=5 up to 3 intervals in total. '
-                 'A size ladder (N = 2^k-1/2^k/2^k+1, 10^k+-1 intervals up to 2^16, thorough 2^19, in a scrambled order) compares pileup, mask, merge, sort, count_overlap and intersect with whole-array NumPy arithmetic. Within a case all operations run on the same operand objects, which must still denote the given sets after every call. thorough: everything at S<=6 with <= 3 intervals, all '
+                 'Zero-length intervals [p,p) are judged operands of pileup / mask (S <= 3) and of unique_intersect (second set) / jaccard / forbes (S <= 3). A size ladder (N = 2^k-1/2^k/2^k+1, 10^k+-1 intervals up to 2^16, thorough 2^19, in a scrambled order) compares pileup, mask, merge, sort, count_overlap and intersect with whole-array NumPy arithmetic. Within a case all operations run on the same operand objects, which must still denote the given sets after every call. thorough: everything at S<=6 with <= 3 intervals, all '
                  'multiset pairs for S<=5 and pairs with <= 4 intervals in total at S=6.')
 MANIFEST_NOTE = ('Trusted: NumPy, npstructures run-length arrays (observed via to_array and via starts/ends/values), CPython, '
                  'engine/observe.py, models/intervals.py (plain per-base Python).')
